@@ -21,11 +21,23 @@ STUB = ["libovni replaced by the independent trace writer sim/tracefmt.py", "tra
 ASSUMPTIONS = ["task bodies are paused only under an API/blocking region (the runtimes' grammar); the value of a CPU whose body is paused with no "
                "region above it is not defined by the statement", "a physical CPU with no running thread may show nothing or the idle default 'Resting'"]
 SHRINK_LIST = "actions"
-shrink_candidates = mgen.shrink_actions
+
+
+def shrink_candidates(case):
+    if case.get("kind", "").startswith("sort-"):
+        return
+    for c in mgen.shrink_actions(case):
+        yield c
 BTYPE = {"nosv": (17, "nosv-breakdown", 11, 13, 16), "nanos6": (41, "nanos6-breakdown", 36, 37, 40)}
 
 
 def gen(rng, tier, idx):
+    if idx % 40 == 39:
+        rs = rng.derive("sweep")
+        if (idx // 40) % 2 == 0:
+            return {"kind": "sort-replace", "maxn": 5 if tier == "quick" else 7, "maxv": 4}
+        return {"kind": "sort-bay", "seed": rs.u64() >> 1, "n": rs.choice([1, 2, 3, 5, 8]), "steps": 3000 if tier == "quick" else 50000,
+                "maxv": rs.choice([1, 2, 4, 1000])}
     rk = rng.derive("knobs")
     model = rk.choice(["nosv", "nanos6"])
     models = [model] + (["kernel"] if rk.chance(10) else [])
@@ -65,7 +77,27 @@ def expected_values(w, m, model):
     return out
 
 
+def run_sweep(case, ctx):
+    from ..framework import ihash
+    exe = ctx.build.aux("sort_harness")
+    if case["kind"] == "sort-replace":
+        args = ["replace", str(case["maxn"]), str(case["maxv"])]
+    else:
+        args = ["bay", str(case["seed"]), str(case["n"]), str(case["steps"]), str(case["maxv"])]
+    p = subprocess.run([exe] + args, stdout=subprocess.PIPE, stderr=subprocess.PIPE, timeout=600)
+    out = p.stdout.decode(errors="replace").strip()
+    n = int(out.split("cases=")[1]) if "cases=" in out else case.get("steps", 1)
+    info = {"sim_ns": 0, "ihash": ihash(case), "nontrivial": True, "evals": n, "size": 1,
+            "probes": {"sort module cases checked (%s)" % case["kind"]: n},
+            "sample": {"kind": case["kind"], "args": args, "result": out[:100]}}
+    if p.returncode != 0 or not out.startswith("OK"):
+        return result(False, "sort-module-wrong", "sort-module-wrong:" + case["kind"], "sort_harness %s: %s\n%s" % (" ".join(args), out[-400:], p.stderr.decode(errors="replace")[-600:]), **info)
+    return result(True, **info)
+
+
 def run(case, ctx):
+    if case.get("kind", "").startswith("sort-"):
+        return run_sweep(case, ctx)
     model = case["model"]
     btype, fname, _, _, _ = BTYPE[model]
     # re-run the reference alongside, snapshotting expected breakdown values per event time
